@@ -38,10 +38,10 @@ theorem versionsSpec_empty : VersionsSpec Graph.empty [] := by
   intro k sp n
   simp [Graph.empty, AList.lookup]
 
-theorem addNode_spec {g : Graph} {seen : List JStr} {vs : JStr}
+theorem addNodeRaw_spec {g : Graph} {seen : List JStr} {vs : JStr}
     (hinv : VersionsSpec g seen) (hwf : KeysDisjoint (vs :: seen)) :
-    (addNode g vs).2 = vs ∧ VersionsSpec (addNode g vs).1 (vs :: seen) ∧
-    (addNode g vs).1.edges = g.edges ∧ (addNode g vs).1.root = g.root := by
+    (addNodeRaw g vs).2 = vs ∧ VersionsSpec (addNodeRaw g vs).1 (vs :: seen) ∧
+    (addNodeRaw g vs).1.edges = g.edges ∧ (addNodeRaw g vs).1.root = g.root := by
   -- a key of `vs` that is already registered is registered for `vs` itself
   have hown : ∀ k sp n, k ∈ keysOf vs → AList.lookup k g.versions = some (sp, n) → n = vs := by
     intro k sp n hk hl
@@ -51,7 +51,7 @@ theorem addNode_spec {g : Graph} {seen : List JStr} {vs : JStr}
     | inr h =>
       exact absurd (keyKind_some_mem hkk)
         (hwf vs (List.mem_cons_self) n (List.mem_cons_of_mem _ hn) (fun e => h e.symm) k hk)
-  unfold addNode
+  unfold addNodeRaw
   cases hs : splitOnce TILDE vs with
   | none =>
     have hkeys : keysOf vs = [vs] := by simp [keysOf, hs]
@@ -283,148 +283,5 @@ namespace VG
 
 theorem keysDisjoint_sub {a b : List JStr} (h : KeysDisjoint b) (hs : ∀ x, x ∈ a → x ∈ b) : KeysDisjoint a :=
   fun v1 h1 v2 h2 hne k hk => h v1 (hs _ h1) v2 (hs _ h2) hne k hk
-
-theorem addFile_spec {g g' : Graph} {seen : List JStr} {f : JStr × Bytes}
-    (hinv : VersionsSpec g seen) (hwf : KeysDisjoint (fileVersions f ++ seen))
-    (h : addFile g f = some g') :
-    VersionsSpec g' (fileVersions f ++ seen) ∧
-    g'.edges = g.edges ++ (fileEdge f).toList ∧
-    (match fileRoot f with
-     | some r => g.root = none ∧ g'.root = some r
-     | none => g'.root = g.root) := by
-  unfold addFile at h
-  cases ht : stripSuffix EXT_TINY f.1 with
-  | some vs =>
-    rw [ht] at h
-    simp only at h
-    have hfv : fileVersions f = [vs] := by simp [fileVersions, ht]
-    rw [hfv] at hwf ⊢
-    obtain ⟨hnode, hspec, hedges, hroot⟩ := addNode_spec (g := g) (vs := vs) hinv hwf
-    cases hr : (addNode g vs).1.root with
-    | some r => rw [hr] at h; simp at h
-    | none =>
-      rw [hr] at h
-      simp only [Option.some.injEq] at h
-      subst h
-      refine ⟨hspec, ?_, ?_⟩
-      · simp [fileEdge, ht, hedges]
-      · simp only [fileRoot, ht]
-        rw [hroot] at hr
-        exact ⟨hr, by rw [hnode]⟩
-  | none =>
-    rw [ht] at h
-    simp only at h
-    cases hd : stripSuffix EXT_DIFF f.1 with
-    | none =>
-      rw [hd] at h
-      simp only [Option.some.injEq] at h
-      subst h
-      have hfv : fileVersions f = [] := by simp [fileVersions, ht, hd]
-      rw [hfv]
-      exact ⟨hinv, by simp [fileEdge, ht, hd], by simp [fileRoot, ht]⟩
-    | some raw =>
-      rw [hd] at h
-      simp only at h
-      cases hh : splitOnce HASH raw with
-      | none => rw [hh] at h; simp at h
-      | some pv =>
-        obtain ⟨parent, version⟩ := pv
-        rw [hh] at h
-        simp only [Option.some.injEq] at h
-        have hfv : fileVersions f = [version, parent] := by simp [fileVersions, ht, hd, hh]
-        rw [hfv] at hwf ⊢
-        have hwf1 : KeysDisjoint (version :: seen) :=
-          keysDisjoint_sub hwf (by intro x hx; simp at hx ⊢; rcases hx with h | h <;> simp [h])
-        obtain ⟨hn1, hs1, he1, hr1⟩ := addNode_spec (g := g) (vs := version) hinv hwf1
-        have hwf2 : KeysDisjoint (parent :: version :: seen) :=
-          keysDisjoint_sub hwf (by intro x hx; simp at hx ⊢; rcases hx with h | h | h <;> simp [h])
-        obtain ⟨hn2, hs2, he2, hr2⟩ := addNode_spec (g := (addNode g version).1) (vs := parent) hs1 hwf2
-        subst h
-        refine ⟨?_, ?_, ?_⟩
-        · intro k sp n
-          rw [hs2 k sp n]
-          simp only [List.mem_cons, List.cons_append, List.nil_append]
-          constructor
-          · intro ⟨h1, h2⟩; exact ⟨by rcases h1 with h | h | h <;> simp [h], h2⟩
-          · intro ⟨h1, h2⟩; exact ⟨by rcases h1 with h | h | h <;> simp [h], h2⟩
-        · simp [fileEdge, ht, hd, hh, he2, he1, hn1, hn2]
-        · simp only [fileRoot, ht]
-          rw [hr2, hr1]
-
-theorem addFiles_spec : ∀ (files : List (JStr × Bytes)) {g g' : Graph} {seen : List JStr},
-    VersionsSpec g seen → KeysDisjoint (dirVersions files ++ seen) → addFiles g files = some g' →
-    (∃ seen', (∀ n, n ∈ seen' ↔ (n ∈ dirVersions files ∨ n ∈ seen)) ∧ VersionsSpec g' seen') ∧
-    g'.edges = g.edges ++ dirEdges files ∧
-    (match g.root with
-     | some r => dirRoots files = [] ∧ g'.root = some r
-     | none => (dirRoots files = [] ∧ g'.root = none) ∨ (∃ r, dirRoots files = [r] ∧ g'.root = some r)) := by
-  intro files
-  induction files with
-  | nil =>
-    intro g g' seen hinv _ h
-    simp only [addFiles, Option.some.injEq] at h
-    subst h
-    refine ⟨⟨seen, by simp [dirVersions], hinv⟩, by simp [dirEdges], ?_⟩
-    cases g.root <;> simp [dirRoots]
-  | cons f fs ih =>
-    intro g g' seen hinv hwf h
-    simp only [addFiles] at h
-    cases hf : addFile g f with
-    | none => rw [hf] at h; simp at h
-    | some g1 =>
-      rw [hf] at h
-      simp only at h
-      have hsub1 : KeysDisjoint (fileVersions f ++ seen) :=
-        keysDisjoint_sub hwf (by
-          intro x hx
-          simp only [dirVersions, List.flatMap_cons, List.mem_append] at hx ⊢
-          rcases hx with h | h
-          · exact Or.inl (Or.inl h)
-          · exact Or.inr h)
-      obtain ⟨hs1, he1, hr1⟩ := addFile_spec hinv hsub1 hf
-      have hsub2 : KeysDisjoint (dirVersions fs ++ (fileVersions f ++ seen)) :=
-        keysDisjoint_sub hwf (by
-          intro x hx
-          simp only [dirVersions, List.flatMap_cons, List.mem_append] at hx ⊢
-          rcases hx with h | h | h
-          · exact Or.inl (Or.inr h)
-          · exact Or.inl (Or.inl h)
-          · exact Or.inr h)
-      obtain ⟨⟨seen', hseen', hspec'⟩, he2, hr2⟩ := ih hs1 hsub2 h
-      refine ⟨⟨seen', ?_, hspec'⟩, ?_, ?_⟩
-      · intro n
-        rw [hseen' n]
-        simp only [dirVersions, List.flatMap_cons, List.mem_append]
-        constructor
-        · intro h
-          rcases h with h | h | h
-          · exact Or.inl (Or.inr h)
-          · exact Or.inl (Or.inl h)
-          · exact Or.inr h
-        · intro h
-          rcases h with (h | h) | h
-          · exact Or.inr (Or.inl h)
-          · exact Or.inl h
-          · exact Or.inr (Or.inr h)
-      · rw [he2, he1]
-        simp only [dirEdges, List.filterMap_cons]
-        cases fileEdge f <;> simp
-      · simp only [dirRoots, List.filterMap_cons]
-        cases hfr : fileRoot f with
-        | some r =>
-          rw [hfr] at hr1
-          simp only at hr1
-          obtain ⟨hg, hg1⟩ := hr1
-          rw [hg]
-          rw [hg1] at hr2
-          simp only at hr2 ⊢
-          obtain ⟨hnil, hroot⟩ := hr2
-          simp only [dirRoots] at hnil
-          exact Or.inr ⟨r, by simp [hnil], hroot⟩
-        | none =>
-          rw [hfr] at hr1
-          simp only at hr1
-          rw [hr1] at hr2
-          simpa [dirRoots] using hr2
 
 end VG
